@@ -39,6 +39,16 @@ def _gen_hw(rng, value, n_mounts, aliasing, with_paths=True) -> Hardware:
     return Hardware(value(), value(), storage)
 
 
+def _gen_aliased(rng, value, n_mounts) -> Hardware:
+    """a NON-normalised operand: every mount point carries 2..3 storages under different keys"""
+    storage = {}
+    for mi, mp in enumerate(MOUNTS[:n_mounts]):
+        for k in range(rng.randint(2, 3)):
+            paths = set(rng.sample(PATHS, rng.randint(0, 1))) or None
+            storage[f"m{mi}k{k}"] = Storage(mp, value(), paths, None)
+    return Hardware(value(), value(), storage)
+
+
 def _derive(rng, cap: Hardware, value) -> Hardware:
     """a requirement close to `cap`: same mounts (possibly one more / fewer), sizes equal or off by one unit"""
     tot = totals(cap)
@@ -150,15 +160,45 @@ class C14(Property):
         q(f"isnorm {ea}", "true" if a.is_normalized() else "false", "Hardware.is_normalized")
         r_as = _run(lambda: (a + b) - b)
         q(f"addsub {ea} {eb}", _fmt(r_as, names), "(a+b)-b")
+        r_sa = _run(lambda: (a - b) + b)
+        q(f"subadd {ea} {eb}", _fmt(r_sa, names), "(a-b)+b")
         p = ctx.rng.choice(PATHS + MOUNTS)
         r_mp = _run(lambda: names.id(a.get_mount_point(p)))
         q(f"getmp {ea} {names.id(p)}", _fmt(r_mp, names, "int"), "Hardware.get_mount_point")
-        return r_add, r_sub, r_sat, r_norm, r_as
+        return r_add, r_sub, r_sat, r_norm, r_as, r_sa
 
     def _monitor(self, ctx, a, b, res, sample):
         """the property itself, on the real results, against exact fractions"""
-        r_add, r_sub, r_sat, r_norm, r_as = res
+        r_add, r_sub, r_sat, r_norm, r_as, r_sa = res
         ta, tb = totals(a), totals(b)
+        # a + b: per-mount totals add
+        if r_add[0]:
+            ts = totals(r_add[1])
+            if (Fraction(r_add[1].cores) != Fraction(a.cores) + Fraction(b.cores) or Fraction(r_add[1].memory) != Fraction(a.memory) + Fraction(b.memory)
+                    or any(ts.get(mp, Fraction(0)) != ta.get(mp, Fraction(0)) + tb.get(mp, Fraction(0)) for mp in set(ts) | set(ta) | set(tb))):
+                ctx.fail("add:totals", f"a+b = {r_add[1]} is not the per-mount sum of a = {a} and b = {b}", sample)
+        else:
+            ctx.fail("add:raises", f"a+b raised {r_add[1]} for a={a} b={b}", sample)
+        # a - b on the mount points a has: a's total minus b's total; raises exactly when one of them would be negative
+        neg = [mp for mp in ta if ta[mp] - tb.get(mp, Fraction(0)) < 0]
+        if r_sub[0]:
+            td = totals(r_sub[1])
+            if neg:
+                ctx.fail("sub:no-raise", f"a-b = {r_sub[1]} although mount {neg[0]} would be negative (a={a}, b={b})", sample)
+            elif (Fraction(r_sub[1].cores) != Fraction(a.cores) - Fraction(b.cores) or Fraction(r_sub[1].memory) != Fraction(a.memory) - Fraction(b.memory)
+                  or any(td.get(mp, Fraction(0)) != ta[mp] - tb.get(mp, Fraction(0)) for mp in ta)):
+                ctx.fail("sub:totals", f"a-b = {r_sub[1]}: per-mount totals are not a's minus b's (a={a}, b={b})", sample)
+        elif not neg:
+            ctx.fail("sub:raises", f"a-b raised {r_sub[1]} although every mount point of a is at least b's (a={a}, b={b})", sample)
+        # (a - b) + b restores a on a's mount points
+        if not neg:
+            if not r_sa[0]:
+                ctx.fail("sub_add:raises", f"(a-b)+b raised {r_sa[1]} for a={a} b={b}", sample)
+            else:
+                tr2 = totals(r_sa[1])
+                if (Fraction(r_sa[1].cores) != Fraction(a.cores) or Fraction(r_sa[1].memory) != Fraction(a.memory)
+                        or any(tr2.get(mp, Fraction(0)) != ta[mp] for mp in ta)):
+                    ctx.fail("sub_add:not-restored", f"(a-b)+b = {r_sa[1]} does not restore a = {a} (b = {b})", sample)
         # normalisation
         if not r_norm[0]:
             ctx.fail("normalize:raises", f"normalized() raised {r_norm[1]} on {a}", sample)
@@ -209,6 +249,10 @@ class C14(Property):
         corpus.append((Hardware(1.0, 1.0, {"/tmp": Storage("/tmp", 1.0)}), Hardware(0.5, 0.5, {"/tmp": Storage("/tmp", 2.0)})))
         corpus.append((Hardware(1.0, 1.0, {"/tmp": Storage("/data", 1.0), "/data": Storage("/tmp", 3.0)}),
                        Hardware(0.5, 0.5, {"/tmp": Storage("/tmp", 2.0)})))
+        corpus.append((Hardware(4.0, 8.0, {"d1": Storage(os.sep, 600.0), "d2": Storage(os.sep, 400.5)}),
+                       Hardware(1.0, 1.0, {os.sep: Storage(os.sep, 50.25)})))
+        corpus.append((Hardware(4.0, 8.0, {"d1": Storage("/tmp", 3.0), "d2": Storage("/tmp", 1.0), "d3": Storage("/tmp", 0.5), "r": Storage(os.sep, 2.0)}),
+                       Hardware(1.0, 1.0, {"x": Storage("/tmp", 4.5), "y": Storage(os.sep, 2.0)})))
         ctx.corpus_replayed += len(corpus)
         cases = list(corpus)
         for i in range(n_pairs):
@@ -216,8 +260,12 @@ class C14(Property):
             aliasing = rng.random() < 0.6
             small = rng.random() < 0.5
             val = lambda: _dy(rng, small)  # noqa: E731
-            a = _gen_hw(rng, val, n_mounts, aliasing)
-            b = _derive(rng, a, val) if rng.random() < 0.5 else _gen_hw(rng, val, n_mounts, aliasing and rng.random() < 0.7)
+            if rng.random() < 0.3:
+                a = _gen_aliased(rng, val, n_mounts)       # 2..3 keys per mount point on the LEFT operand
+                b = _derive(rng, a, val) if rng.random() < 0.7 else _gen_aliased(rng, val, n_mounts)
+            else:
+                a = _gen_hw(rng, val, n_mounts, aliasing)
+                b = _derive(rng, a, val) if rng.random() < 0.5 else _gen_hw(rng, val, n_mounts, aliasing and rng.random() < 0.7)
             cases.append((a, b))
         for i, (a, b) in enumerate(cases):
             sample = {"a": enc_hw(a, names), "b": enc_hw(b, names), "names": None}
@@ -290,7 +338,7 @@ class C14(Property):
             if res.cores != a.cores or res.memory != a.memory or totals(res) != totals(a):
                 ctx.fail("float:add-sub-cancel:binary-rounding", "still differs", r)
         elif "a" in r and "b" in r:
-            out = ctx.lean("Drivers/C14.lean", [f"{op} {r['a']} {r['b']}" for op in ("add", "sub", "or", "sat", "addsub")])
+            out = ctx.lean("Drivers/C14.lean", [f"{op} {r['a']} {r['b']}" for op in ("add", "sub", "or", "sat", "addsub", "subadd")])
             print("model:", out)
         else:
             super().replay(ctx, data)
